@@ -63,10 +63,13 @@ def plan(seed, tier):
     ns = 16 if tier == "quick" else 80
     for i in range(ns):
         cases.append({"class": "small", "index": i, "reps": 40, "cost": 6})
+    for i in range(16 if tier == "quick" else 96):
+        cases.append({"class": "coarse", "index": i, "top": [1, 2][i % 2], "grid": [0.75, 1.5][(i // 2) % 2],
+                      "pi1": [0.15, 0.4][(i // 4) % 2], "reps": 100, "cost": 8})
     return cases
 
 
-MANDATORY_CLASSES = ["pipeline", "small"]
+MANDATORY_CLASSES = ["pipeline", "small", "coarse"]
 
 
 def simulate(rng, design, n_spectra, pi1):
@@ -79,7 +82,10 @@ def simulate(rng, design, n_spectra, pi1):
     return tab
 
 
-def fdp_from_files(files, truth, level):
+ALPHAS_COARSE = [round(0.05 * 1.15 ** k, 4) for k in range(20)]   # 0.05 .. 0.71
+
+
+def fdp_from_files(files, truth, level, alphas=None):
     t = files.get(f"targets.{level}")
     if t is None:
         return None
@@ -88,7 +94,7 @@ def fdp_from_files(files, truth, level):
     ok = np.array([bool(correct[i]) for i in t["PSMId"].astype(str)])
     q = t[qcol].values.astype(float)
     out = {}
-    for a in ALPHAS:
+    for a in (alphas or ALPHAS):
         acc = q <= a
         out[a] = (int((acc & ~ok).sum()), int(acc.sum()))
     return out
@@ -194,8 +200,60 @@ def run_small(case):
     return res
 
 
+def run_coarse(case):
+    """Coarse, saturating scores through assign_confidence (no learning): one target + one decoy per spectrum,
+    scores rounded to a grid and clipped to 3 or 5 levels, so that the two PSMs of a null spectrum tie exactly in
+    20..40% of the spectra and the acceptance threshold sits on levels where such ties are common; rows shuffled,
+    so whichever row order breaks the tie is independent of the label. A tie-break that prefers targets
+    under-counts decoys. Judged without the learning slack: the (D+1)/T estimate controls E[FDP] exactly here."""
+    rng = core.seed_seq(case["seed"], "C04", "coarse", case["index"])
+    res = Result(case, key=f"coarse/{case['seed']}/{case['index']}")
+    obs = []
+    nt = 0
+    with core.scratch("c04c") as d:
+        for r in range(case["reps"]):
+            n_spectra = 800
+            pi1 = float(case["pi1"])
+            g = float(case["grid"])
+            tab = psm.psm_table(rng, n_spectra=n_spectra, paired=True, pi1=pi1, key_cols=("ExpMass",), n_info=1, n_noise=1,
+                                sep_strength=2.5, pep_pool=max(5, n_spectra // 6), with_rid=False)
+            L = int(case["top"])
+            s = np.clip(np.round(tab["df"]["info0"].values.astype(float) / g), -L, L).astype(float)
+            p = psm.write_pin(tab, d / "c.pin")
+            ds = pipeline.read_datasets([p])
+            sizes = {"CONFIDENCE_CHUNK_SIZE": int(0.6 * len(s))} if r % 3 == 1 else {}
+            out_dir = d / "o"
+            with core.chunk_sizes(**sizes):
+                c = pipeline.run_confidence(ds, [s], out_dir, decoys=True, rng=1, peps_algorithm="kde_nnls")
+            res.count("replicates")
+            if not c.ok:
+                res.count("confidence_failed_replicates")
+                res.count("confidence_failed:" + c.sig)
+                continue
+            files = pipeline.read_results(out_dir)
+            # observed: exactly tied target/decoy competitions
+            df = tab["df"].assign(_s=s)
+            grp = df.groupby(list(tab["spectrum_columns"]))["_s"]
+            res.count("tied_target_decoy_competitions", int((grp.nunique() == 1).sum()))
+            res.count("competitions", int(grp.ngroups))
+            rec = {"rep": r, "n": n_spectra, "pi1": pi1}
+            for lvl in ("psms", "peptides"):
+                f = fdp_from_files(files, tab["truth"], lvl, ALPHAS_COARSE)
+                if f:
+                    rec[lvl] = {str(a): v for a, v in f.items()}
+            obs.append(rec)
+            if rec.get("psms", {}).get(str(ALPHAS_COARSE[-1]), (0, 0))[1] > 0:
+                nt += 1
+    res["obs"] = obs
+    res["evals"] = case["reps"]
+    res["nontrivial"] = nt > 0
+    if obs:
+        res["sample"] = {"levels": 2 * case["top"] + 1, "grid": case["grid"], "pi1": case["pi1"], "first_replicate": obs[0]}
+    return res
+
+
 def run_case(case):
-    return {"pipeline": run_pipeline, "small": run_small}[case["class"]](case)
+    return {"pipeline": run_pipeline, "small": run_small, "coarse": run_coarse}[case["class"]](case)
 
 
 def finalize(cases, results, tier):
@@ -205,21 +263,22 @@ def finalize(cases, results, tier):
         c = bycase.get(r.get("id"))
         if not c or not r.get("obs"):
             continue
-        key = ("small",) if c["class"] == "small" else (c["design"], c["learner"], c["folds"])
+        key = ("small",) if c["class"] == "small" else ("coarse", f"levels={2 * c['top'] + 1}", f"grid={c['grid']}", f"pi1={c['pi1']}") if c["class"] == "coarse" else (c["design"], c["learner"], c["folds"])
         groups.setdefault(key, []).extend(r["obs"])
     table = []
     out = []
     for key, obs in sorted(groups.items()):
+        direct = key[0] in ("coarse",)   # no learning involved: no slack for the liberal bias of rescoring
         for lvl in ("psms", "peptides"):
-            for a in ALPHAS:
-                fdps = [o[lvl][str(a)][0] / max(1, o[lvl][str(a)][1]) for o in obs if lvl in o]
+            for a in (ALPHAS_COARSE if direct else ALPHAS):
+                fdps = [o[lvl][str(a)][0] / max(1, o[lvl][str(a)][1]) for o in obs if lvl in o and str(a) in o[lvl]]
                 if len(fdps) < 12:
                     continue
                 R = len(fdps)
                 m = float(np.mean(fdps))
-                se = max(float(np.std(fdps, ddof=1) / np.sqrt(R)), 0.5 * a / np.sqrt(R))
-                acc = float(np.mean([o[lvl][str(a)][1] for o in obs if lvl in o]))
-                if m - a > 0.25 * a + 0.005 + 6 * se:
+                se = max(float(np.std(fdps, ddof=1) / np.sqrt(R)), (0.2 if direct else 0.5) * a / np.sqrt(R))
+                acc = float(np.mean([o[lvl][str(a)][1] for o in obs if lvl in o and str(a) in o[lvl]]))
+                if m - a > (0.002 if direct else 0.25 * a + 0.005) + 6 * se:
                     verdict = "violated"
                 elif m <= a + 3 * se:
                     verdict = "held"
@@ -228,7 +287,7 @@ def finalize(cases, results, tier):
                 table.append({"cell": "/".join(map(str, key)), "level": lvl, "alpha": a, "R": R, "mean_fdp": round(m, 4),
                               "se": round(se, 4), "mean_accepted": round(acc, 1), "verdict": verdict})
                 if verdict == "violated":
-                    rr = Result({"id": None, "class": "small" if key == ("small",) else "pipeline"}, key="/".join(map(str, key)))
+                    rr = Result({"id": None, "class": key[0] if key[0] in ("small", "coarse") else "pipeline"}, key="/".join(map(str, key)))
                     rr["evals"] = 0
                     rr.violate("fdr_not_controlled", f"{'/'.join(map(str, key))}/{lvl}/alpha={a}", mean_fdp=m, se=se, R=R,
                                alpha=a, mean_accepted=acc)
